@@ -329,10 +329,12 @@ Definition check_c05 (c : c05case) : N :=
   code (corr_ok (c05_c c))
        ((if c05_single c then C05_single_obs (impl_trace (c05_c c)) else true) && C05_fail_obs (c05_c c) (c05_skips c)).
 
-Record c06case := C06Case { c06_c : fcase; c06_gets : list getinfo; c06_ctx_ok : bool }.
+From Cache Require Import Ctx.
+Record c06case := C06Case { c06_c : fcase; c06_gets : list getinfo; c06_ctx : list ctxobs }.
 Definition check_c06 (c : c06case) : N :=
-  code (corr_ok (c06_c c))
-       (forallb (c06_get_ok (f_update_ttl (fc_cfg (c06_c c))) (impl_trace (c06_c c))) (c06_gets c) && c06_ctx_ok c).
+  code (corr_ok (c06_c c) && forallb ctxobs_agree (c06_ctx c))
+       (forallb (c06_get_ok (f_update_ttl (fc_cfg (c06_c c))) (impl_trace (c06_c c))) (c06_gets c)
+        && forallb ctxobs_prop (c06_ctx c)).
 
 Record c03case := C03Case { c03_c : fcase; c03_tid : tid; c03_hit : option err; c03_built : val + Z }.
 
